@@ -733,6 +733,14 @@ pub fn draw_job(rng: &mut Rng, c: &Corpus) -> Job {
         extra_args.push("--test-file".into());
         extra_args.push(if id == "canonical_le" { "le_test_vectors.json".into() } else { "be_test_vectors.json".into() });
     }
+    if backend == Backend::Python && rng.below(3) == 0 {
+        // the documented qualified form `module.CustomField`, naming a custom field of the description
+        let text = &c.entries[entry].text;
+        let names: Vec<&str> = text.lines().filter_map(|l| l.trim_start().strip_prefix("custom_field ")).filter_map(|r| r.split(|ch: char| !(ch.is_ascii_alphanumeric() || ch == '_')).next()).filter(|n| !n.is_empty()).collect();
+        if !names.is_empty() && c.entries[entry].opts_for(backend).custom_field.is_empty() {
+            extra_args.extend(["--custom-field".to_string(), format!("verif.custom.{}", rng.pick(&names))]);
+        }
+    }
     if backend == Backend::Cxx && rng.below(3) == 0 {
         extra_args.extend(["--namespace".to_string(), "verif::ns".to_string()]);
         if rng.below(2) == 0 {
@@ -1047,7 +1055,7 @@ pub fn run_one(ctx: &Ctx, wd: &WorkerDir, seed: u64, run: u64) -> RunResult {
     let mut st = RunStats::default();
     let mut violation = None;
     // one run in four also exercises an exclusion set; the perturbed run then uses the E-job
-    if rng.below(4) == 0 && job.extra_args.is_empty() {
+    if rng.below(4) == 0 && !job.extra_args.iter().any(|a| a == "--test-file") {
         let (ej, v) = execute_exclusion(ctx, wd, &job, &mut rng, &mut st);
         violation = v;
         if let Some(ej) = ej {
